@@ -103,7 +103,10 @@ Proof.
     exists (y :: ys). simpl. rewrite C, Cs, T, Ts. split; reflexivity.
 Qed.
 
-(* struct fields: entry by entry the same keys, converted values *)
+Lemma smv_not_opt ser t v : is_opt t = false -> ser_map_value ser t v = rmap Some (ser t v).
+Proof. destruct t; try reflexivity. discriminate. Qed.
+
+(* struct fields: entry by entry the same keys, converted values (both sides leave out exactly the direct Nones) *)
 Lemma tf_fields fs : Forall (fun ft => TF (snd ft)) fs -> forall vs ps,
   all2b (fun ft v' => has_type_b (snd ft) v') fs vs = true -> ser_fields fs vs = Ok ps ->
   Forall (fun kx : bytes * tomlval => tunnel_free (snd kx) = true) (somes ps) ->
@@ -115,12 +118,14 @@ Proof.
   - apply andb_true_iff in Hty as [Hv Hvs].
     apply rbind_ok in H as (p & Hp & H). apply rbind_ok in H as (ps' & Hps & H). injection H as <-.
     apply rmap_ok in Hp as (ox & Hox & ->).
-    destruct (ser_map_value_cases ser_value t v) as [(t' & -> & -> & E)|[_ E]]; rewrite E in Hox.
+    destruct (ser_map_value_cases ser_value t v) as [(t' & -> & -> & E)|[Hn E]]; rewrite E in Hox.
     + injection Hox as <-. simpl in Hf. destruct (IH vs ps' Hvs Hps Hf) as (qs & Tq & Fq).
       exists (None :: qs). simpl. rewrite Tq. simpl. split; [reflexivity|exact Fq].
     + apply rmap_ok in Hox as (x & Hx & ->). simpl in Hf. inversion Hf as [|? ? Hfx Hf']; subst. simpl in Hfx.
       destruct (IHt v x Hv Hx Hfx) as (y & C & T). destruct (IH vs ps' Hvs Hps Hf') as (qs & Tq & Fq).
-      exists (Some (f, y) :: qs). simpl. rewrite T. simpl. rewrite Tq. simpl. split; [reflexivity|].
+      assert (E2 : ser_map_value tv_ser t v = rmap Some (tv_ser t v)).
+      { destruct (ser_map_value_cases tv_ser t v) as [(t'' & -> & -> & _)|[_ E2]]; [exfalso; apply (Hn eq_refl); reflexivity|exact E2]. }
+      exists (Some (f, y) :: qs). simpl. rewrite E2, T. simpl. rewrite Tq. simpl. split; [reflexivity|].
       constructor; [split; [reflexivity|exact C]|exact Fq].
 Qed.
 
@@ -170,7 +175,7 @@ Proof.
     destruct (tv_key_roundtrip kt k _ Hk Hs) as [K1 _].
     destruct (IHv v _ Hv Hx Hfx) as (y & C & T).
     destruct (IH xs Hes Hps Hf') as (qs & Tq & Fq).
-    eexists ((_, y) :: qs). rewrite K1. simpl. rewrite T. simpl. rewrite Tq. simpl.
+    eexists ((_, y) :: qs). rewrite K1. simpl. rewrite (smv_not_opt tv_ser vt v Hno), T. simpl. rewrite Tq. simpl.
     split; [reflexivity|constructor; [split; [reflexivity|exact C]|exact Fq]].
 Qed.
 
